@@ -37,9 +37,11 @@ Record fixes := mkFixes {
   fix_f33 : bool    (* try_compute_val treats an expired entry as NotFound *)
 }.
 
-(* what /repo does today: the ONE switch the lead flips after applying patches *)
-Definition impl_fixes : fixes := mkFixes false false false false false.
+Definition no_fixes : fixes := mkFixes false false false false false.    (* the code as found *)
 Definition all_fixes : fixes := mkFixes true true true true true.
+(* what /repo does today — the ONE line to edit after applying a patch; the D1
+   tie runs the model with these switches (ocaml/eng_cache.ml) *)
+Definition impl_fixes : fixes := no_fixes.
 
 Record cfg := mkCfg {
   c_shards : N;            (* power of two >= 1; shard = hash & (n-1), hash = key *)
